@@ -416,8 +416,8 @@ EXH_HYP = {"est_rcp": "|rcpss(x)*x - 1| <= 1.5*2^-12 for normal x below 2^126 (C
            "est_rcp_big": "0 <= rcpss(x)*x <= 1+1.5*2^-12 for |x| >= 2^126 (Coq section hypothesis H_rcp_big)"}
 
 
-def judge_exh(ctx, label, exe, stride):
-    rc, out, err = ctx.run_exe(exe, ["16", str(stride)], timeout=900)
+def judge_exh(ctx, label, exe, stride, res=None):
+    rc, out, err = res if res is not None else ctx.run_exe(exe, ["16", str(stride)], timeout=900)
     d = parse_exh(out)
     if rc != 0 or "done" not in d:
         ctx.broken.append("exhaustive sweep (%s) did not complete rc=%s %s" % (label, rc, err[-300:]))
@@ -516,10 +516,8 @@ def regenerate(ctx):
 
 
 # ------------------------------------------------------------------ main
-def run(ctx):
-    regenerate(ctx)
-    ctx.coq_check(("Properties.v", "PropertiesGen.v"))
-    model = ctx.extract(snippets=["conv_N.ml", "conv_Z.ml", "conv_nat.ml"])
+def build_and_sweep(ctx):
+    """C++ builds and the two exhaustive sweeps; runs in a worker thread while the (single-threaded) Coq build proceeds."""
     common = dict(flags=CXXFLAGS)
     exes = ctx.cxx_many([
         dict(sources=["exh.cpp"], out="exh_simd", sanitize=None, opt="-O2", **common),
@@ -527,6 +525,32 @@ def run(ctx):
         dict(sources=["harness.cpp"], out="h_simd", sanitize="asan", **common),
         dict(sources=["harness.cpp"], out="h_nosimd", sanitize="asan", flags=CXXFLAGS + ["-DRKCOMMON_NO_SIMD"]),
     ])
+    sweeps = {}
+    if all(exes) and not getattr(ctx, "replay", None):
+        stride = ctx.pick(64, 4)
+        for label, exe in (("SIMD", exes[0]), ("NO_SIMD", exes[1])):
+            sweeps[label] = ctx.run_exe(exe, ["16", str(stride)], timeout=900)
+    return exes, sweeps
+
+
+def run(ctx):
+    regenerate(ctx)
+    pool = ThreadPoolExecutor(max_workers=1)
+    fut = pool.submit(build_and_sweep, ctx)
+    ctx.coq_check(("Properties.v", "PropertiesGen.v"))
+    # name the regenerated obligation that broke (ProofsGen.v is one file: the first failing lemma stops it)
+    m = re.search(r'File "\./ProofsGen\.v", line (\d+)', getattr(ctx, "coq_log", ""))
+    if m:
+        ln = int(m.group(1))
+        src = open(os.path.join(ctx.coqdir, "ProofsGen.v")).read().split("\n")
+        name = next((re.match(r"\s*Lemma (\w+)", src[i]).group(1) for i in range(min(ln, len(src)) - 1, -1, -1)
+                     if re.match(r"\s*Lemma (\w+)", src[i])), "?")
+        ctx.cov["gen_obligation_broken"] = {"lemma": name, "line": ln}
+        ctx.log("Tie A: regenerated definition no longer equals the model: ProofsGen.%s (line %d) fails" % (name, ln))
+        ctx.broken.insert(0, "Tie A obligation ProofsGen.%s: the definition regenerated from the working tree is not the model's" % name)
+    model = ctx.extract(snippets=["conv_N.ml", "conv_Z.ml", "conv_nat.ml"])
+    exes, sweeps = fut.result()
+    pool.shutdown()
     exh_simd, exh_nosimd, h_simd, h_nosimd = exes
     if getattr(ctx, "replay", None):
         doc = json.load(open(ctx.replay))
@@ -546,7 +570,7 @@ def run(ctx):
     stride = ctx.pick(64, 4)
     ex = {}
     for label, exe in (("SIMD", exh_simd), ("NO_SIMD", exh_nosimd)):
-        ex[label] = judge_exh(ctx, label, exe, stride)
+        ex[label] = judge_exh(ctx, label, exe, stride, sweeps.get(label))
         ctx.log("exhaustive %s: %s" % (label, {k: (v.get("maxerr") or v.get("viol")) for k, v in ex[label].items() if isinstance(v, dict)}))
     ctx.cov["exhaustive"] = True
     ctx.cov["exhaustive_sweep"] = ex
